@@ -213,3 +213,10 @@ Theorem C07_gov_halting_calls :
    ("failUnsupportedProposal", "keeper.RefundAndDeleteDeposits")]%string.
 Proof. reflexivity. Qed.
 Print Assumptions C07_gov_halting_calls.
+
+(* a passed proposal's message handler may panic (x/crisis does so by design): safeExecuteHandler defers a function
+   literal that itself calls recover() before it calls the handler, so the panic cannot leave the gov end blocker
+   (exercised on the real app by the scripted "panicking handler" history of harness/c07 on every run) *)
+Theorem C07_gov_handler_panic_recovered : gen_gov_safe_execute_recovers = true.
+Proof. reflexivity. Qed.
+Print Assumptions C07_gov_handler_panic_recovered.
